@@ -149,7 +149,7 @@ def run(tier, seed):
     rng = C.rng_for(seed, CID)
     n = 500 if tier == 'quick' else 12000
 
-    P = R.proof_stage()
+    P = IC.proof_stage_with_translation(R)
     proof_broken = not P['ok']
     if proof_broken:
         R.notes.append('proof stage: ' + P['log'][-1500:])
@@ -334,6 +334,7 @@ def run(tier, seed):
         R.notes.append(f'{len(mismatches)} mismatches; first: {mismatches[0]}')
     R.coverage['rule'] = RULE
     return R.finish(level='proof', trusted_base=C.TRUSTED_COMMON + [
+        IC.TRANSLATOR_TRUST,
         'harness/impl/interp_runner.py + interp_mod.py (module builder over the real ProofExp API, request codec, the RecExp '
         'subclass that only remembers the serialiser object created by ProofExp.serialize)',
         'harness/rust/interp_harness.rs + interp_main.rs (dump only)',
